@@ -90,6 +90,10 @@ pub enum Mut {
     IndexUnpadded { b: usize, val: u64 },
     IndexUnpacked { b: usize, val: u64 },
     IndexPad { k: usize, val: u8 },
+    /// coherent rewrite: the index lists only the first `keep` records (count = keep)
+    IndexTruncate { keep: usize },
+    /// coherent rewrite: one extra record appended (count = n + 1)
+    IndexExtra { unpadded: u64, unpacked: u64 },
     IndexCrc(u32),
     FooterCrc(u32),
     BackwardSize(u32),
@@ -339,6 +343,20 @@ pub fn write_xz(spec: &XzSpec, m: Option<&Mut>) -> XzFile {
     if let Some(Mut::IndexCount(v)) = m {
         count = *v;
         applied = true;
+    }
+    let mut records = records;
+    match m {
+        Some(Mut::IndexTruncate { keep }) if *keep < records.len() => {
+            records.truncate(*keep);
+            count = *keep as u64;
+            applied = true;
+        }
+        Some(Mut::IndexExtra { unpadded, unpacked }) => {
+            records.push((*unpadded, *unpacked));
+            count = records.len() as u64;
+            applied = true;
+        }
+        _ => {}
     }
     put_vli(&mut idx, count);
     for (bi, (mut unpadded, mut unpacked)) in records.iter().copied().enumerate() {
